@@ -63,9 +63,10 @@ type Op struct {
 }
 
 type IndexSpec struct {
-	FS      bool   `json:"fs"`     // file-system directory instead of in-memory
-	Reopen  bool   `json:"reopen"` // FS only: close the writer, read through OpenReader
-	Merge   bool   `json:"merge"`  // leave the background merger enabled (layout then depends on timing; the oracle reads order from the reader)
+	FS      bool   `json:"fs"`               // file-system directory instead of in-memory
+	Reopen  bool   `json:"reopen"`           // FS only: close the writer, read through OpenReader
+	Merge   bool   `json:"merge"`            // leave the background merger enabled (layout then depends on timing; the oracle reads order from the reader)
+	SegV2   bool   `json:"seg_v2,omitempty"` // ice segment version 2 instead of the default (only with the merger disabled, see NOTES.md)
 	Batches [][]Op `json:"batches"`
 }
 
@@ -221,6 +222,9 @@ func genIndex(t *rapid.T) IndexSpec {
 		s.Reopen = rapid.Bool().Draw(t, "reopen")
 	}
 	s.Merge = rapid.IntRange(0, 3).Draw(t, "merge") == 0
+	if !s.Merge {
+		s.SegV2 = rapid.IntRange(0, 3).Draw(t, "segV2") == 0
+	}
 	p := genPalette(t)
 	var ndocs int
 	switch rapid.IntRange(0, 9).Draw(t, "sizeKind") {
@@ -476,6 +480,9 @@ func openIndex(s IndexSpec) (*opened, *vlib.Failure) {
 	}
 	if !s.Merge {
 		cfg = noMerge(cfg)
+	}
+	if s.SegV2 {
+		cfg = cfg.WithSegmentVersion(2)
 	}
 	rm := func() {
 		if dir != "" {
@@ -1259,7 +1266,7 @@ func (c IndexCase) summary() map[string]interface{} {
 	if len(reqs) > 4 {
 		reqs = reqs[:4]
 	}
-	return map[string]interface{}{"kind": "index-summary", "fs": c.Index.FS, "reopen": c.Index.Reopen, "merge": c.Index.Merge,
+	return map[string]interface{}{"kind": "index-summary", "fs": c.Index.FS, "reopen": c.Index.Reopen, "merge": c.Index.Merge, "seg_v2": c.Index.SegV2,
 		"batches": len(c.Index.Batches), "ops": nops, "updates": nupd, "deletes": ndel, "first_ops": first,
 		"queries": c.Queries, "first_requests": reqs, "requests": len(c.Reqs), "chains": c.Chains}
 }
@@ -1296,6 +1303,9 @@ func TestC09Index(t *testing.T) {
 		}
 		if c.Index.Merge {
 			ev.Class("idx:merger-enabled", 1)
+		}
+		if c.Index.SegV2 {
+			ev.Class("idx:segment-version-2", 1)
 		}
 		if nbatches >= 3 {
 			ev.Class("idx:batches>=3", 1)
